@@ -26,6 +26,12 @@ PROFILES = {
     "CConveyor": dict(file="edges/continuous_conveyor.py", cls="ConveyorBelt", store="C", attr="belt", conveyor=True,
                       avgkey="time_averaged_num_of_items_in_conveyor"),
 }
+# the thin subclass of the slotted belt store defined next to the slotted conveyor: its constructor and its _do_put
+# only forward to the base class (verified: which value goes to which base parameter; the result is passed through)
+# Edge.connect (inherited by every edge class): verified on its own small state (the edge's two node references and the
+# two node-side edge lists it registers itself in)
+PROFILES["EdgeConnect"] = dict(file="edges/edge.py", cls="Edge", store=None)
+PROFILES["SBeltSub"] = dict(file="edges/slotted_conveyor.py", cls="BeltStore", store=None, subclass_of=("env", "capacity", "mode", "delay"))
 CONV_EVENTS = ("item_arrival_event", "get_events_available", "put_events_available")
 STALLED = ("STALLED_ACCUMULATING_STATE", "STALLED_NONACCUMULATING_STATE")
 
@@ -137,6 +143,12 @@ class EdgeLib(LibBase):
     # ------------------------------------------------------------------ state
     def schema(self, cls):
         p = PROFILES[cls]
+        if cls == "SBeltSub":
+            return {}
+        if cls == "EdgeConnect":
+            return {"src_node": ("opt", ("obj", "node")), "dest_node": ("opt", ("obj", "node")),
+                    "src.out_edges": ("list", ("obj", "edge")), "dest.in_edges": ("list", ("obj", "edge")),
+                    "src.out_edges.isnone": ("bool",), "dest.in_edges.isnone": ("bool",)}
         f = {"capacity": ("num", "int"), "delay": ("dyn",), "state": ("str",),
              "src_node": ("opt", ("obj", "node")), "dest_node": ("opt", ("obj", "node")),
              "stats.last_state_change_time": ("opt", ("num", "real")), "id": ("opaque",)}
@@ -172,12 +184,17 @@ class EdgeLib(LibBase):
                 st.f[nm] = V.mk_value("s0." + nm, kind)
             if PROFILES[cls].get("conveyor"):
                 st.ghost["lemma_terms"] = [st.f[e].t for e in CONV_EVENTS]
+        if cls == "EdgeConnect":
+            st.ghost["self_id"] = z3.Int("self_id")
         return st
 
     def validity(self, cls, st, con):
         out = []
-        if con.is_init:
+        if con.is_init or cls == "SBeltSub":
             return out
+        if cls == "EdgeConnect":
+            return [("valid.len.src.out_edges", st.f["src.out_edges"].len >= 0),
+                    ("valid.len.dest.in_edges", st.f["dest.in_edges"].len >= 0)]
         p = PROFILES[cls]
         out.append(("valid.capacity", st.f["capacity"].t >= 1))
         if p.get("conveyor"):
@@ -276,6 +293,9 @@ class EdgeLib(LibBase):
         if attr in sch and sch[attr][0] == "str" and isinstance(v, VDyn):
             # a non-string value is different from every string
             st.f[attr] = VStr(z3.If(v.tag == V.T_STR, v.s, -1000 - v.tag))
+            return [Outcome("next", st)]
+        if attr in sch and sch[attr][0] == "opt" and isinstance(v, VObj):
+            st.f[attr] = VOpt(z3.BoolVal(False), v)
             return [Outcome("next", st)]
         if attr in sch and sch[attr][0] == "opt" and isinstance(v, VNone):
             st.f[attr] = VOpt(z3.BoolVal(True), V.mk_value("none." + attr, sch[attr][1]))
@@ -483,9 +503,62 @@ class EdgeLib(LibBase):
     def isinstance_other(self, ex, v, names, st):
         if isinstance(v, EnvRef):
             return VBool("Environment" in names)
+        if isinstance(v, VObj) and v.kind == "node":
+            return VBool("Node" in names)
+        return None
+
+    # Edge.connect(src, dest): the two node arguments' edge lists are modelled as fields "src.out_edges", "dest.in_edges"
+    def self_obj(self, ex, st):
+        if "self_id" not in st.ghost:
+            raise Unsupported("self used as a value")
+        return VObj(st.ghost["self_id"], "edge")
+
+    def _node_list_field(self, ex, base, attr):
+        a = getattr(ex.ctx, "args", None) or {}
+        if ex.ctx.fname == "connect" and isinstance(base, VObj) and base.kind == "node":
+            if attr == "out_edges" and "src" in a and base.t.eq(a["src"].t):
+                return "src.out_edges"
+            if attr == "in_edges" and "dest" in a and base.t.eq(a["dest"].t):
+                return "dest.in_edges"
+        return None
+
+    def obj_attr(self, ex, base, attr, st, lineno):
+        f = self._node_list_field(ex, base, attr)
+        if f is not None:
+            return [(VOpt(st.f[f + ".isnone"].t, FieldRef(f)), st)]
+        return [(st.heap_get(base, attr), st)]
+
+    def set_obj_attr(self, ex, base, attr, v, st, lineno):
+        f = self._node_list_field(ex, base, attr)
+        if f is not None:
+            if isinstance(v, SList) and v.ekind == ("any",):
+                st.f[f] = V.list_empty(("obj", "edge"))
+                st.f[f + ".isnone"] = VBool(False)
+                return [Outcome("next", st)]
+            raise Unsupported("assignment to %s (line %d)" % (f, lineno))
         return None
 
     def call_super(self, ex, name, args, st, lineno):
+        if ex.ctx.cls == "SBeltSub":
+            # super().__init__(...) / super()._do_put(...) of the base belt store: record which value reaches which base
+            # parameter (positional arguments follow the base signature, keywords by name)
+            node = ex.ctx.super_call_node
+            sig = PROFILES["SBeltSub"]["subclass_of"] if name == "__init__" else ("put_event", "item")
+            got = {}
+            for k, a in enumerate(args):
+                if k < len(sig):
+                    got[sig[k]] = a
+            for kwd in node.keywords:
+                rs = ex.eval(kwd.value, st)
+                if len(rs) != 1 or isinstance(rs[0][0], Exc):
+                    raise Unsupported("keyword argument with effects")
+                got[kwd.arg] = rs[0][0]
+            s = st.fork()
+            s.ghost.setdefault("super_calls", []).append((name, got))
+            res = NONE if name == "__init__" else VOpaque("super._do_put result")
+            if name != "__init__":
+                s.ghost["super_result"] = res
+            return [(res, s)]
         # Edge.__init__(env, id, capacity) by contract
         con = self.contracts["Edge"]["__init__"]
         cap = args[2]
@@ -499,6 +572,79 @@ class EdgeLib(LibBase):
         lib = self
         p = PROFILES[cls]
         C = {}
+        if cls == "EdgeConnect":
+            def me(c):
+                return c.old.ghost["self_id"]
+
+            def nodup(lst):
+                return V.forall_idx2(lst, lst, lambda i, j, a, b: a.t != b.t, "nodup", strict_lt=True)
+
+            def conn_post(c):
+                o, n = c.old, c.new
+                items = [Clause("source-and-destination-recorded", lambda c: z3.And(
+                    z3.Not(n.f["src_node"].isnone), n.f["src_node"].val.t == c.args["src"].t,
+                    z3.Not(n.f["dest_node"].isnone), n.f["dest_node"].val.t == c.args["dest"].t), ("C20",))]
+                for f in ("src.out_edges", "dest.in_edges"):
+                    L1 = n.f[f]
+                    items += [
+                        Clause(f + ".is-a-list-afterwards", lambda c, f=f: z3.Not(n.f[f + ".isnone"].t), ("C20", "C10")),
+                        # A-edges is established here: the node's list contains this edge, and if it had no duplicates
+                        # before it has none afterwards (connecting twice, or after the constructor already listed the
+                        # edge, must not list it twice: the index of an edge in its node's list is what the policies use)
+                        Clause(f + ".contains-this-edge", lambda c, L1=L1: logic.Exists(
+                            1, lambda j: z3.And(0 <= j, j < L1.len, L1.at(j).t == me(c)), [L1.len], "has-self"), ("C20", "C10")),
+                        Clause(f + ".no-duplicates", lambda c, L1=L1: nodup(L1), ("C20", "C10", "C15"))]
+                return items
+            C["connect"] = FnContract(
+                "connect", [("src", ("obj", "node"), None), ("dest", ("obj", "node"), None), ("reconnect", ("bool",), VBool(False))],
+                pre=lambda st, args: [
+                    ("A-edges.in: the node-side lists have no duplicates so far", nodup(st.f["src.out_edges"])),
+                    ("A-edges.in2", nodup(st.f["dest.in_edges"]))],
+                post=conn_post,
+                excs=[ExcCase("ValueError", lambda c: z3.And(z3.Not(c.args["reconnect"].t), z3.Or(
+                    z3.Not(c.old.f["src_node"].isnone), z3.Not(c.old.f["dest_node"].isnone))), "already-connected",
+                    unchanged=True, props=("C20",))],
+                normal_requires=lambda c: z3.Or(c.args["reconnect"].t, z3.And(c.old.f["src_node"].isnone,
+                                                                            c.old.f["dest_node"].isnone)),
+                modifies=("src_node", "dest_node", "src.out_edges", "dest.in_edges", "src.out_edges.isnone", "dest.in_edges.isnone"),
+                uses_inv=False, keeps_inv=False, props=("C20", "C10", "C15"))
+            return C
+        if cls == "SBeltSub":
+            def same(a, b):
+                if isinstance(a, Num) and isinstance(b, Num):
+                    return V.eq(a, b)
+                if isinstance(a, VStr) and isinstance(b, VStr):
+                    return a.t == b.t
+                return z3.BoolVal(a is b)
+
+            def init_ok(c):
+                calls = [x for x in c.new.ghost.get("super_calls", []) if x[0] == "__init__"]
+                if len(calls) != 1:
+                    return z3.BoolVal(False)
+                got = calls[0][1]
+                want = {"capacity": c.args["capacity"], "delay": c.args["delay"], "mode": VStr("FIFO")}
+                if set(got) - {"env"} != set(want):
+                    return z3.BoolVal(False)
+                return z3.And(*[same(got[k], want[k]) for k in want])
+            C["__init__"] = FnContract(
+                "__init__", [("env", ("env",), None), ("capacity", ("num", "int"), None), ("delay", ("num", "real"), None)],
+                post=lambda c: [Structural("hands-capacity-FIFO-and-the-slot-delay-to-the-belt-store", init_ok, ("C12", "C06"))],
+                uses_inv=False, keeps_inv=False, is_init=True, props=("C12", "C06"))
+            C["__init__"].no_frame = True
+
+            def put_ok(c):
+                calls = [x for x in c.new.ghost.get("super_calls", []) if x[0] == "_do_put"]
+                if len(calls) != 1:
+                    return z3.BoolVal(False)
+                got = calls[0][1]
+                ok = got.get("put_event") is c.args["event"] and got.get("item") is c.args["item"]
+                return z3.BoolVal(bool(ok and c.res is c.new.ghost.get("super_result")))
+            C["_do_put"] = FnContract(
+                "_do_put", [("event", S.EV, None), ("item", ("opaque",), None)],
+                post=lambda c: [Structural("forwards-to-the-belt-store-and-returns-its-result", put_ok, ("C12", "C01"))],
+                uses_inv=False, keeps_inv=False, result_kind=("opaque",), props=("C12", "C01"))
+            C["_do_put"].no_frame = True
+            return C
         if cls == "Edge":
             # ---- Edge.__init__(env, id, capacity): rejects a capacity that is not a positive integer
             def cap_ok(c):
